@@ -1797,7 +1797,9 @@ def run(chk: core.Check):
                 "or not), mixtures with rational weights (normalised or not; Fock members → fast path, superpositions → "
                 "generic path; precision 0 and default precision with members below the threshold; members sharing basis "
                 "states, a member that is a photon-number sector of another member, two members with a common sector), "
-                "density matrices built from mixtures; sessions: one long-lived Simulator answering 3–5 requests of "
+                "density matrices built from mixtures; widely unequal coefficients: a term scaled by 1/37 … 1/100003 "
+                "(population down to 1e-10, amplitude ≥ 3e-6) in superpositions, in members of mixtures and of density "
+                "matrices, density-matrix members of relative weight down to 1e-9; sessions: one long-lived Simulator answering 3–5 requests of "
                 "different kinds, among them density matrices of one FockBasis populating different basis states; distinct = distinct (kind, m, engine, precision, members, circuit); non-trivial = "
                 "circuit of ≥ 2 components and (≥ 2 tags | ≥ 2 basis states in the input)")
     chk.assumptions = [
@@ -1817,6 +1819,8 @@ def run(chk: core.Check):
         "the native StateVector discards components of modulus < 1e-6 (global_params['min_complex_component']): where "
         "the exact value has such a contribution the tolerance of evolve-based results is widened by exactly that "
         "contribution (counted in branch native-amplitude-cutoff), otherwise it is 1e-9",
+        "coefficients of normalised modulus below 3e-6 are not generated: the native StateVector would discard the term "
+        "itself when the input is built (weak terms keep 3e-6 ≤ |c| ≤ 3e-2 relative to the dominant ones)",
         "at the default precision the thresholds (input trimming, product threshold of the fast path, amplitude "
         "threshold of _merge_sv) are emulated by the model on exact rationals; a float comparison that falls within "
         "1e-15 relative of a threshold could flip (never observed)",
